@@ -74,8 +74,8 @@ def size_fn_atoms(fx, fn, depth=0, seen=None):
                 p = tables.pat_norm(fx, arm["pat"])
                 if p[0] == "int":
                     out.append("%s==%s" % (sc, p[1]))
-        if n.get("k") == "mcall" and n["m"] == "unwrap_or" and n["recv"].get("k") == "mcall" and n["recv"]["m"] == "map":
-            opt = n["recv"]["recv"]
+        if n.get("k") == "mcall" and ((n["m"] == "unwrap_or" and n["recv"].get("k") == "mcall" and n["recv"]["m"] == "map") or (n["m"] == "map_or" and len(n["args"]) == 2)):
+            opt = n["recv"]["recv"] if n["m"] == "unwrap_or" else n["recv"]
             while opt.get("k") == "mcall" and opt["m"] in ("as_ref", "as_mut"):
                 opt = opt["recv"]
             out.append("some(%s)" % LY.norm_expr(opt))
